@@ -2,7 +2,7 @@
 """Regenerates /verif/MANIFEST.json (kept in git; run after changing the check list)."""
 import json, os
 ROOT = os.path.dirname(os.path.dirname(os.path.abspath(__file__)))
-fix_commits = ["4dc4a82", "76fa0f3", "c109061", "6252e1d", "a1ddfb0", "ed5d6fe", "f436aa0", "4e784a0", "b2672c6", "bcbaea5"]
+fix_commits = ["4dc4a82", "76fa0f3", "c109061", "6252e1d", "a1ddfb0", "ed5d6fe", "f436aa0", "4e784a0", "b2672c6", "bcbaea5", "49a7aa0"]
 seq = "SEQ engine: model-based PBT over API histories (proptest byte vectors -> decoder -> step interpreter on real happylock code instantiated with auditing raw locks)"
 conc = "CONC engine: generated thread programs x generated schedules (harness-owned baton scheduler at raw-lock-operation granularity, both RwLock wake policies)"
 types = "TYPES engine: grammar-generated client programs, rustc verdict on twin/offending pairs, auto traits differential against std"
